@@ -92,6 +92,7 @@ type sample struct {
 	Decisions string   `json:"decisions"`
 	Outcome   string   `json:"outcome"`
 	PC        []string `json:"path_condition,omitempty"`
+	Witness   []string `json:"one_satisfying_input,omitempty"`
 	Out       []string `json:"trace,omitempty"`
 }
 
@@ -217,8 +218,22 @@ func (r *Run) finish(w *Worker, it *workItem, res pathResult) {
 			r.done = true
 		}
 	}
-	if len(r.samples) < 6 && (res.kind == outOK || res.kind == outViolation) && (r.paths[res.kind]%97 == 1 || len(r.samples) < 2) {
+	if len(r.samples) < 6 && (res.kind == outOK || res.kind == outViolation) && (len(ex.pc) >= 2 || len(r.samples) == 0 && r.paths[res.kind] > 20) && (r.paths[res.kind]%97 == 1 || len(r.samples) < 2) {
 		s := sample{Job: j.String(), Decisions: decString(res.decisions), Outcome: res.kind.String()}
+		for i, rv := range ex.vals {
+			if i >= 16 {
+				break
+			}
+			val := "unconstrained"
+			if rv.T.IsConst() {
+				val = fmt.Sprint(int64(rv.T.Val))
+			} else if ex.modelOK {
+				if v, ok := ex.model[rv.T]; ok {
+					val = fmt.Sprint(int64(v))
+				}
+			}
+			s.Witness = append(s.Witness, fmt.Sprintf("%s(%s)=%s", rv.Name, rv.Kind, val))
+		}
 		for i, c := range ex.pc {
 			if i >= 12 {
 				s.PC = append(s.PC, fmt.Sprintf("… %d more", len(ex.pc)-i))
